@@ -86,7 +86,9 @@ def install(I):
             for x in items[1:]:
                 # python: min keeps first unless x < best; max keeps first unless x > best
                 c = I.compare('Lt' if is_min else 'Gt', x, best)
-                if I.spec_mode:
+                # scalar compared with a constant (a clamp): merge the two paths with ite;
+                # two symbolic operands (max(r, g, b)): fork, which keeps each path's formula simple
+                if I.spec_mode or (is_num(x) and is_num(best) and not (isinstance(x, SymVal) and isinstance(best, SymVal))):
                     ct = I.truth_term(c)
                     best = (x if ct else best) if isinstance(ct, bool) else I.ite(ct, x, best)
                 elif I.truth(c):
@@ -102,9 +104,7 @@ def install(I):
         if isinstance(x, (int, float)):
             return abs(x)
         if isinstance(x, SymVal) and x.k in ('int', 'real'):
-            if I.spec_mode:
-                return mk(z3.If(x.t >= 0, x.t, -x.t), x.k)
-            return x if I.branch(x.t >= 0) else mk(-x.t, x.k)
+            return mk(z3.If(x.t >= 0, x.t, -x.t), x.k)
         I.raise_builtin('TypeError', 'bad operand type for abs()')
 
     @reg('isinstance')
